@@ -6,7 +6,7 @@ validated against it *before* anything is appended (the order of validation and 
 `fix:` commit for HDF5/NetCDF established); `flush` makes everything written so far durable.
 Per format the policy says which layout components are compared (transcribed from the write methods):
 
-  h5, nc, dtr              atoms, cell, time        xtc, trr   atoms, cell (a missing time is filled with 0,1,2,…)
+  h5, nc, dtr, gro         atoms, cell, time        xtc, trr   atoms, cell (a missing time is filled with 0,1,2,…)
   dcd, mdcrd, lammpstrj    atoms, cell              xyz        atoms
 
 C20: `Trajectory.save` / `md.open(mode='w')`: existence check before any open-for-write or unlink.
@@ -27,7 +27,7 @@ structure Policy where
   deriving DecidableEq, Repr
 
 inductive Fmt where
-  | h5 | nc | dtr | xtc | trr | dcd | mdcrd | lammpstrj | xyz
+  | h5 | nc | dtr | xtc | trr | dcd | mdcrd | lammpstrj | xyz | gro
   deriving DecidableEq, Repr
 
 def policy : Fmt → Policy
@@ -40,6 +40,7 @@ def policy : Fmt → Policy
   | .mdcrd => ⟨true, false, false⟩
   | .lammpstrj => ⟨true, false, false⟩
   | .xyz => ⟨false, false, false⟩
+  | .gro => ⟨true, true, false⟩     -- GroTrajectoryFile.write: atom count, time stamps and box vectors fixed by the first write
 
 structure Chunk (α : Type) where
   frames : List α
